@@ -63,15 +63,32 @@ def concretise(case, rot):
     return table, sidecar, code, rowtext
 
 
+class SecondValidationDiffers(Exception):
+    pass
+
+
 def validate_table(table, sidecar, as_object=False):
     import pandas as pd
     from hed import Sidecar, TabularInput
     df = pd.DataFrame(table, dtype=object if as_object else str)
     t = TabularInput(df, sidecar=Sidecar(io.StringIO(json.dumps(sidecar))))
+    held = t.dataframe.astype(str).values.tolist()
     issues = t.validate(_G["schema"], extra_def_dicts=_G["dd"])
     out = []
     for i in issues:
         out.append((i.get("code"), 1 if i.get("severity", 1) == 1 else 10, i.get("ec_row"), i.get("ec_column") or ""))
+    # history: validating the SAME input object again gives the same report, and the table it holds is still the file
+    _G["nv"] = _G.get("nv", 0) + 1
+    if _G["nv"] % 3:             # (every third validated table)
+        return out
+    before = t.dataframe.astype(str).values.tolist()
+    if before != held:
+        raise SecondValidationDiffers("validation changed the rows the input object holds: before %s, after %s" % (held, before))
+    again = [(i.get("code"), 1 if i.get("severity", 1) == 1 else 10, i.get("ec_row"), i.get("ec_column") or "")
+             for i in t.validate(_G["schema"], extra_def_dicts=_G["dd"])]
+    if sorted(again, key=repr) != sorted(out, key=repr) or t.dataframe.astype(str).values.tolist() != before:
+        raise SecondValidationDiffers("validating the same input object twice: first %s, then %s; rows held before the second "
+                                      "validation %s, after it %s" % (out, again, before, t.dataframe.astype(str).values.tolist()))
     return out
 
 
@@ -83,6 +100,8 @@ def execute(args):
     problems = []
     try:
         got = validate_table(table, sidecar)
+    except SecondValidationDiffers as ex:
+        return ci, [("second-validation-differs", str(ex))], None
     except Exception as ex:  # noqa
         return ci, [("raises:%s" % type(ex).__name__, "validate raised %s: %s for table %s" % (type(ex).__name__, ex, table))], None
     # the same table handed over as a DataFrame whose n/a cells are MISSING values (None / NaN, what pandas reads by default)
